@@ -69,18 +69,21 @@ func (l *DirLock) Release() error {
 		return nil
 	}
 	var firstErr error
+	// Unlink the LOCK file while the flock is still held. Unlocking first opens a window
+	// in which a second process locks this (about to be unlinked) inode while a third one
+	// creates and locks a fresh LOCK file: two owners of one directory.
+	fs := vfs.Ensure(l.fs)
+	if err := fs.Remove(l.path); err != nil && !errors.Is(err, os.ErrNotExist) {
+		firstErr = err
+	}
 	if fd, ok := vfs.FileFD(l.file); ok {
-		if err := syscall.Flock(int(fd), syscall.LOCK_UN); err != nil {
+		if err := syscall.Flock(int(fd), syscall.LOCK_UN); err != nil && firstErr == nil {
 			firstErr = err
 		}
-	} else {
+	} else if firstErr == nil {
 		firstErr = fmt.Errorf("dirlock: file %q does not expose descriptor", l.path)
 	}
 	if err := l.file.Close(); err != nil && firstErr == nil {
-		firstErr = err
-	}
-	fs := vfs.Ensure(l.fs)
-	if err := fs.Remove(l.path); err != nil && !errors.Is(err, os.ErrNotExist) && firstErr == nil {
 		firstErr = err
 	}
 	l.file = nil
